@@ -159,7 +159,7 @@ def eval_html(case):
 EVALUATORS = {"html": eval_html}
 
 BASE = "http://www.site.com/dir/page.html"
-HREFS = ["//intranet/d", "//static.site.zzzz/c", "//localhost/x", "http://a.com/x", "https://b.org/y?z=1&amp;w=2", "//c.net/p", "/rel", "rel/x", "../up", "#frag", "javascript:void(0)", "mailto:x@y.z", "",
+HREFS = ["\n  http://a.com/nl\n", "http://a.com/?id=3&amp;amp;copy=2", "/a&amp;#x2F;b&amp;lt;", "//intranet/d", "//static.site.zzzz/c", "//localhost/x", "http://a.com/x", "https://b.org/y?z=1&amp;w=2", "//c.net/p", "/rel", "rel/x", "../up", "#frag", "javascript:void(0)", "mailto:x@y.z", "",
          "http://bad.zzzz/x", BASE, "HTTP://A.COM/x", "http://a.com/x#frag", "http://a.com/a&#x2F;b", "http://a.com/é", "/p?q=1&amp;r=2",
          "http://a.com:80/x/../x", "http://www.site.com/dir/page.html#top", "page.html", "?q=2", "http://a.com/%7Ex", "http://a.com/~x", "ftp://f.org/z",
          "  http://a.com/padded  ", "http://localhost:8000/x", "tel:+33", "/a:b", "http://xn--9ca.fr/", "http://é.fr/"]
